@@ -339,7 +339,7 @@ func labelClass(label string) string {
 
 // monitoredRun runs the scenario with the online frame monitor attached.
 func monitoredRun(sc *scenario, plan *h.AspectPlan, jp bool) (*h.ForkSession, *frameMon, *state.StateDB, h.InvokeResult) {
-	fs := h.NewForkSession(sc.World, h.EnvSpec{Fork: sc.Fork}, h.ForkOpts{Debug: true, RecSteps: true, JoinPoints: jp, Plan: plan})
+	fs := h.NewForkSession(sc.World, h.EnvSpec{Fork: sc.Fork}, h.ForkOpts{Debug: true, RecSteps: true, LightMem: true, JoinPoints: jp, Plan: plan})
 	mon := newFrameMon(fs.DB, fs.Rules.IsEIP158)
 	// the per-transaction Prepare happens inside Invoke; take the pre-state copy at the Invoke event
 	var pre *state.StateDB
